@@ -13,12 +13,15 @@
      E D : key -> block -> block   crypto/aes         length (E k b) = 16, length (D k b) = 16,
                                                        D k (E k b) = b on 16-byte blocks   [assumption: AES is a permutation]
      H   : bytes -> bytes           crypto/sha1        length (H m) = 20;  no-collision only where stated
-   The length facts are PROVED for the Gallina instances (aes_enc_length, aes_dec_length, sha1_length), see the
-   ..._aes / ..._sha1 corollaries; "aes_dec inverts aes_enc" is not proved: it is an assumption about AES,
-   validated by FIPS-197 known answers (Prim/Aes256.v) and by the correspondence runs. *)
+   All of these except the no-collision hypothesis are PROVED for the Gallina instances: aes_enc_length,
+   aes_dec_length, aes_enc_bytes_ok, sha1_length, sha1_bytes_ok and - in Prim/Aes256Inv.v -
+   aes_dec k (aes_enc k b) = b for keys and blocks of bytes; see the ..._aes / ..._sha1 / ..._inst corollaries,
+   which carry no hypothesis about the block cipher.  That the Gallina functions ARE crypto/aes and
+   crypto/sha1 is validated by the FIPS known answers (Prim/) and by every correspondence run.
+   [bytes_ok l = true] says that every element of l is below 256 (l is a string of bytes). *)
 From Coq Require Import String.
 From Coq Require Import ZArith NArith List Lia Bool.
-From MTV Require Import Base.Bytes Base.Outcome Prim.Hex Prim.Xor Prim.Sha1 Prim.Aes256.
+From MTV Require Import Base.Bytes Base.Outcome Prim.Hex Prim.Xor Prim.Sha1 Prim.Aes256 Prim.Aes256Facts Prim.Aes256Inv.
 From MTV Require Import Crypto.Ige Crypto.IgeMem Crypto.IgeProofs Crypto.TempKeys Crypto.TempKeysProofs.
 Import ListNotations.
 Open Scope nat_scope.
@@ -56,26 +59,46 @@ Print Assumptions C05_enc_is_ige_aes.
 Theorem C05_dec_enc : forall (E D : bytes -> bytes -> bytes),
   (forall k b, length (E k b) = 16) -> (forall k b, length (D k b) = 16) ->
   forall key iv data out1 out2 n,
-  (forall b, length b = 16 -> D key (E key b) = b) ->
+  (forall b, bytes_ok b = true -> bytes_ok (E key b) = true) ->
+  (forall b, length b = 16 -> bytes_ok b = true -> D key (E key b) = b) ->
   key_len_ok key = true -> length iv = 32 -> length data = 16 * n -> 1 <= n ->
+  bytes_ok iv = true -> bytes_ok data = true ->
   length data <= length out1 -> length data <= length out2 ->
   exists c, do_encrypt E data out1 key iv = (Done, c ++ skipn (length data) out1, data) /\
             length c = length data /\
             do_decrypt D c out2 key iv = (Done, data ++ skipn (length data) out2, c).
-Proof. exact do_decrypt_encrypt. Qed.
+Proof. exact do_decrypt_encrypt_ok. Qed.
 Print Assumptions C05_dec_enc.
+
+(* for the Gallina AES nothing is assumed: every 16/24/32-byte key, every IV, every number of blocks *)
+Theorem C05_dec_enc_aes : forall key iv data out1 out2 n,
+  key_len_ok key = true -> bytes_ok key = true -> length iv = 32 -> bytes_ok iv = true ->
+  length data = 16 * n -> 1 <= n -> bytes_ok data = true ->
+  length data <= length out1 -> length data <= length out2 ->
+  exists c, do_encrypt aes_enc data out1 key iv = (Done, c ++ skipn (length data) out1, data) /\
+            length c = length data /\
+            do_decrypt aes_dec c out2 key iv = (Done, data ++ skipn (length data) out2, c).
+Proof.
+  intros key iv data out1 out2 n Hk Ok Hiv Oiv Hd Hn Od Ho1 Ho2.
+  apply (do_decrypt_encrypt_ok aes_enc aes_dec aes_enc_length aes_dec_length key iv data out1 out2 n); try assumption.
+  - intros b Ob. apply aes_enc_bytes_ok; assumption.
+  - intros b Hb Ob. apply aes_dec_enc; assumption.
+Qed.
+Print Assumptions C05_dec_enc_aes.
 
 (* the hypotheses of C05_dec_enc are satisfiable (a toy permutation), and a real instance by computation:
    the repository's / OpenSSL's IGE vector, AES-128 key, two blocks *)
 Definition fit16 (b : bytes) : bytes := firstn 16 (b ++ zero_block).
 Example C05_dec_enc_hyps_sat :
-  (forall (k b : bytes), length (fit16 b) = 16) /\ (forall (k b : bytes), length b = 16 -> fit16 (fit16 b) = b).
+  (forall (k b : bytes), length (fit16 b) = 16) /\ (forall (k b : bytes), length b = 16 -> fit16 (fit16 b) = b) /\
+  (forall (k b : bytes), bytes_ok b = true -> bytes_ok (fit16 b) = true).
 Proof.
   assert (L : forall b, length (fit16 b) = 16).
   { intros b. unfold fit16. rewrite firstn_length, app_length. cbn [zero_block repeat length]. lia. }
   assert (I : forall b, length b = 16 -> fit16 b = b).
   { intros b Hb. unfold fit16. rewrite firstn_app, firstn_all2 by lia. rewrite Hb. cbn [Nat.sub firstn]. apply app_nil_r. }
-  split; [intros _ b; apply L|]. intros _ b Hb. now rewrite !I.
+  split; [intros _ b; apply L|]. split; [intros _ b Hb; now rewrite !I|].
+  intros _ b Hb. unfold fit16. apply ok_firstn. apply ok_app. split; [exact Hb|reflexivity].
 Qed.
 
 Example C05_openssl_vector :
@@ -192,13 +215,16 @@ Proof. vm_compute. reflexivity. Qed.
    Explicit hypothesis about SHA-1: it does not collide between the payload and the payload extended by a
    non-empty prefix of the (at most 15) padding bytes - the strings the trim loop tries first. *)
 Theorem C05_temp_roundtrip : forall (H : bytes -> bytes) (E D : bytes -> bytes -> bytes),
-  (forall m, length (H m) = 20) ->
+  (forall m, length (H m) = 20) -> (forall m, bytes_ok (H m) = true) ->
   (forall k b, length (E k b) = 16) -> (forall k b, length (D k b) = 16) ->
-  (forall k b, length k = 32 -> length b = 16 -> D k (E k b) = b) ->
+  (forall k b, bytes_ok k = true -> bytes_ok b = true -> bytes_ok (E k b) = true) ->
+  (forall k b, length k = 32 -> bytes_ok k = true -> length b = 16 -> bytes_ok b = true -> D k (E k b) = b) ->
   forall new_nonce server_nonce payload,
   length new_nonce = 32 -> bytes_ok new_nonce = true ->
   length server_nonce = 16 -> bytes_ok server_nonce = true ->
+  bytes_ok payload = true ->
   (forall pad,
+     bytes_ok pad = true ->
      length pad <= 15 -> Nat.modulo (20 + length payload + length pad) 16 = 0 ->
      (forall i, 0 < i <= length pad -> H (payload ++ firstn i pad) <> H payload) ->
      decrypt_temp H D
@@ -206,33 +232,43 @@ Theorem C05_temp_roundtrip : forall (H : bytes -> bytes) (E D : bytes -> bytes -
                     (H payload ++ payload ++ pad))
        (of_be new_nonce) (of_be server_nonce) = Ok payload)
   /\
-  (forall rnd : nat -> bytes, (forall n, length (rnd n) = n) ->
+  (forall rnd : nat -> bytes, (forall n, length (rnd n) = n) -> (forall n, bytes_ok (rnd n) = true) ->
      (forall i, 0 < i <= pad_need (20 + length payload) ->
         H (payload ++ firstn i (rnd (pad_need (20 + length payload)))) <> H payload) ->
      exists ct, encrypt_temp H E rnd payload (of_be new_nonce) (of_be server_nonce) = Ok ct /\
                 length ct = 20 + length payload + pad_need (20 + length payload) /\
                 decrypt_temp H D ct (of_be new_nonce) (of_be server_nonce) = Ok payload).
 Proof.
-  intros H E D HL EL DL DE nn sn payload L1 O1 L2 O2. split.
-  - intros pad Lp Hal NC. apply (decrypt_temp_peer H E D HL EL DL DE); assumption.
-  - intros rnd Hr NC. apply (temp_roundtrip_own H E D HL EL DL DE); assumption.
+  intros H E D HL HO EL DL EO DE nn sn payload L1 O1 L2 O2 Opl. split.
+  - intros pad Opad Lp Hal NC. apply (decrypt_temp_peer H E D HL HO EL DL EO DE); assumption.
+  - intros rnd Hr Or NC. apply (temp_roundtrip_own H E D HL HO EL DL EO DE); assumption.
 Qed.
 Print Assumptions C05_temp_roundtrip.
 
-(* with the Gallina SHA-1 and AES the only hypotheses left are the two cryptographic ones *)
+(* with the Gallina SHA-1 and AES the ONLY hypothesis left is the explicit SHA-1 no-collision one *)
 Theorem C05_temp_roundtrip_inst :
-  (forall k b, length k = 32 -> length b = 16 -> aes_dec k (aes_enc k b) = b) ->
-  forall new_nonce server_nonce payload pad,
+  forall new_nonce server_nonce payload,
   length new_nonce = 32 -> bytes_ok new_nonce = true ->
   length server_nonce = 16 -> bytes_ok server_nonce = true ->
-  length pad <= 15 -> Nat.modulo (20 + length payload + length pad) 16 = 0 ->
-  (forall i, 0 < i <= length pad -> sha1 (payload ++ firstn i pad) <> sha1 payload) ->
-  decrypt_temp sha1 aes_dec
-    (ige_encrypt aes_enc (tmp_aes_key sha1 new_nonce server_nonce) (tmp_aes_iv sha1 new_nonce server_nonce)
-                 (sha1 payload ++ payload ++ pad))
-    (of_be new_nonce) (of_be server_nonce) = Ok payload.
+  bytes_ok payload = true ->
+  (forall pad,
+     bytes_ok pad = true ->
+     length pad <= 15 -> Nat.modulo (20 + length payload + length pad) 16 = 0 ->
+     (forall i, 0 < i <= length pad -> sha1 (payload ++ firstn i pad) <> sha1 payload) ->
+     decrypt_temp sha1 aes_dec
+       (ige_encrypt aes_enc (tmp_aes_key sha1 new_nonce server_nonce) (tmp_aes_iv sha1 new_nonce server_nonce)
+                    (sha1 payload ++ payload ++ pad))
+       (of_be new_nonce) (of_be server_nonce) = Ok payload)
+  /\
+  (forall rnd : nat -> bytes, (forall n, length (rnd n) = n) -> (forall n, bytes_ok (rnd n) = true) ->
+     (forall i, 0 < i <= pad_need (20 + length payload) ->
+        sha1 (payload ++ firstn i (rnd (pad_need (20 + length payload)))) <> sha1 payload) ->
+     exists ct, encrypt_temp sha1 aes_enc rnd payload (of_be new_nonce) (of_be server_nonce) = Ok ct /\
+                length ct = 20 + length payload + pad_need (20 + length payload) /\
+                decrypt_temp sha1 aes_dec ct (of_be new_nonce) (of_be server_nonce) = Ok payload).
 Proof.
-  intros DE nn sn payload pad. apply (decrypt_temp_peer sha1 aes_enc aes_dec sha1_length aes_enc_length aes_dec_length DE).
+  apply (C05_temp_roundtrip sha1 aes_enc aes_dec sha1_length sha1_bytes_ok aes_enc_length aes_dec_length aes_enc_bytes_ok).
+  intros k b Lk Ok Lb Ob. apply aes256_dec_enc; assumption.
 Qed.
 Print Assumptions C05_temp_roundtrip_inst.
 
